@@ -594,7 +594,7 @@ func c10R3(c *Ctx, r *Report) {
 				}
 				for _, b := range blocks {
 					nWild++
-					g := Guard{Name: "len(labels) > int(Labels)", Op: "lt", A: labelsIn, B: callsFunc("builtin.len"), Holds: true}
+					g := Guard{Name: "len(labels) > int(Labels)", Op: "lt", A: labelsIn, B: callsFunc("builtin.len"), Holds: true, Alt: diffPositive(labelsIn)}
 					if miss := guardsMissing(wfn, b, []Guard{g}); len(miss) > 0 {
 						problems = append(problems, fmt.Sprintf("%s: wildcard owner reconstruction not guarded by %s", c.pos(in.Pos()), miss[0]))
 					}
@@ -641,7 +641,7 @@ func c10R3(c *Ctx, r *Report) {
 			// a concatenation starting with "*."
 			if anyIn(sliceOf(st.Val), isStar) {
 				nWild++
-				g := Guard{Name: "len(labels) > int(s.Labels)", Op: "lt", A: fieldPathOf(isValue(sig), "Labels"), B: callsFunc("builtin.len"), Holds: true}
+				g := Guard{Name: "len(labels) > int(s.Labels)", Op: "lt", A: fieldPathOf(isValue(sig), "Labels"), B: callsFunc("builtin.len"), Holds: true, Alt: diffPositive(fieldPathOf(isValue(sig), "Labels"))}
 				if miss := guardsMissing(fn, st.Block(), []Guard{g}); len(miss) > 0 {
 					problems = append(problems, fmt.Sprintf("%s: wildcard owner reconstruction not guarded by %s", c.pos(st.Pos()), miss[0]))
 				}
@@ -1080,4 +1080,12 @@ func lowersThroughPointersAST(c *Ctx, fd *ast.FuncDecl) bool {
 		return true
 	})
 	return found && !other
+}
+
+// diffPositive: the same test written on the difference, `len(labels) - int(Labels) > 0`.
+func diffPositive(isLabels vpred) *Guard {
+	return &Guard{Name: "len(labels) - int(Labels) > 0", Op: "lt", A: isConstInt(0), B: func(v ssa.Value) bool {
+		b, ok := v.(*ssa.BinOp)
+		return ok && b.Op == token.SUB && anyIn(sliceOf(b.X), callsFunc("builtin.len")) && anyIn(sliceOf(b.Y), isLabels) && !anyIn(sliceOf(b.X), isLabels)
+	}, Holds: true}
 }
